@@ -41,7 +41,7 @@ SigObsVerdict(S, ev, ent) ==
 FirstBad(seq) == IF \E i \in 1..Len(seq) : seq[i] # ""
                  THEN seq[CHOOSE i \in 1..Len(seq) : seq[i] # "" /\ \A j \in 1..(i-1) : seq[j] = ""] ELSE ""
 
-LinksLead(lk) == \A i \in 1..Len(lk) : lk[i].f = lk[i].t /\ lk[i].fw
+LinksLead(lk) == \A i \in 1..Len(lk) : lk[i].f = lk[i].t /\ lk[i].fw    \* fw: item_next and head entries lead forward, index entries backward
 CrashObsVerdict(S, ev) ==
     IF ev.term # "ok" THEN "opening a crash image did not terminate normally: " \o ev.term
     ELSE IF ev.rc # 0 THEN
